@@ -160,16 +160,17 @@ func checkRoutingCountFlow(c *Ctx, res *report.Result) {
 	}
 	// pass-through of routingParameters / reverse client
 	for _, hop := range []struct {
-		a      anchor
-		callee string
-		idx    int
-		want   string
+		a         anchor
+		callee    string
+		idx       int
+		want      string
+		fromParam int // when the caller passes one of its own parameters on: that parameter's position (names are not compared)
 	}{
-		{anchor{"proxy", "", "handleStream"}, "streamRouting", 6, "routingParameters"},
-		{anchor{"proxy", "", "handleStream"}, "streamRouting", 5, "adminClientReverse"},
-		{anchor{"proxy", "*adminServiceProxyServer", "StreamWorkflowReplicationMessages"}, "handleStream", 7, "routingParameters"},
-		{anchor{"proxy", "*adminServiceProxyServer", "StreamWorkflowReplicationMessages"}, "handleStream", 9, "adminClientReverse"},
-		{anchor{"proxy", "", "buildProxyServer"}, "NewAdminServiceProxyServer", 8, "routingParameters"},
+		{anchor{"proxy", "", "handleStream"}, "streamRouting", 6, "routingParameters", 7},
+		{anchor{"proxy", "", "handleStream"}, "streamRouting", 5, "adminClientReverse", 9},
+		{anchor{"proxy", "*adminServiceProxyServer", "StreamWorkflowReplicationMessages"}, "handleStream", 7, "routingParameters", -1},
+		{anchor{"proxy", "*adminServiceProxyServer", "StreamWorkflowReplicationMessages"}, "handleStream", 9, "adminClientReverse", -1},
+		{anchor{"proxy", "", "buildProxyServer"}, "NewAdminServiceProxyServer", 8, "routingParameters", -1},
 	} {
 		f := resolve(c, res, rule, hop.a)
 		if f == nil {
@@ -181,7 +182,11 @@ func checkRoutingCountFlow(c *Ctx, res *report.Result) {
 			continue
 		}
 		p, _ := flow.FieldPath(calls[0].Common().Args[hop.idx])
-		res.Check(strings.HasSuffix(p, hop.want), rule, fmt.Sprintf("%s passes %s on to %s", hop.a.name, hop.want, hop.callee), instrPos(c.Prog, calls[0]), p, "argument is "+p)
+		okHop := strings.HasSuffix(p, hop.want)
+		if par, isPar := flow.Strip(flow.ResolveLoad(calls[0].Common().Args[hop.idx])).(*ssa.Parameter); isPar && hop.fromParam >= 0 {
+			okHop = hop.fromParam < len(f.Params) && f.Params[hop.fromParam] == par
+		}
+		res.Check(okHop, rule, fmt.Sprintf("%s passes %s on to %s", hop.a.name, hop.want, hop.callee), instrPos(c.Prog, calls[0]), p, "argument is "+p)
 	}
 	if f := resolve(c, res, rule, anchor{"proxy", "", "buildProxyServer"}); f != nil {
 		// reverse client is built on c.managedClient, forwarding client on c.client
